@@ -46,7 +46,7 @@ WrapVals == {
    Obj(<<"s">>, <<St(<<"a">>)>>),
    \* ... and without a number (multipart text parts are not typed: F-C06-2)
    Obj(<<"ro", "s">>, <<St(<<"v">>), St(<<"a">>)>>), Obj(<<"ro", "wo">>, <<St(<<"v">>), St(<<"w">>)>>), Obj(<<"wo">>, <<St(<<"w">>)>>) }
-Wraps == {"anyOf", "anyOf2", "oneOf", "allOf", "allOfT", "allOfAnyOf", "items", "itemsAnyOf", "prop", "propAnyOf"}
+Wraps == {"anyOf", "anyOf2", "oneOf", "allOf", "allOfT", "anyOfT", "oneOfT", "allOfAnyOf", "items", "itemsAnyOf", "prop", "propAnyOf"}
 WrapVal(v, w) == CASE w \in {"items", "itemsAnyOf"} -> Arr(<<v>>)
                    [] w \in {"prop", "propAnyOf"} -> Obj(<<"in">>, <<v>>)
                    [] OTHER -> v
@@ -60,8 +60,96 @@ EmptyVals == { Obj(<<"n", "s">>, <<N(4), St(<<>>)>>), Obj(<<"n", "s">>, <<N(4), 
                \* ... and without a number next to it (multipart text parts are not typed: F-C06-2 would mask the verdict)
                Obj(<<"s">>, <<St(<<>>)>>), Obj(<<"s">>, <<St(<<"a">>)>>), Obj(<<"ls", "s">>, <<Arr(<<St(<<"a">>)>>), St(<<>>)>>) }
 
+(* ---------------------------------------------------- round 6b ---------------------------------------------------- *)
+(* selection over two decoder families (JSON and plain text), entries without a schema, headers that have no decoder *)
+DeclFamily2 == {Json, JsonUtf8, AppWild, AnyWild, Text, TextUtf8, TextWild}
+DeclSets2 == {d \in SUBSET DeclFamily2 : d # {} /\ Cardinality(d) <= 3}
+Hdrs2 == {[absent |-> TRUE], Json, JsonUtf8, JsonAscii, ProblemJson, Text, TextUtf8, TextAscii, Png}
+NoneRec == [none |-> TRUE]
+DeclSeq(d) == SetToSortSeq(d, LAMBDA a, b : TRUE)
+(* strings made of characters that are structure in a urlencoded body (and harmless everywhere else) *)
+StructVals == { Obj(<<"s">>, <<St(<<"a", " ", "b">>)>>), Obj(<<"s">>, <<St(<<"a", "+", "b">>)>>), Obj(<<"s">>, <<St(<<"a", "&", "b", "=", "c">>)>>),
+                Obj(<<"s">>, <<St(<<"1", "0", "0", "%">>)>>),
+                Obj(<<"ls", "s">>, <<Arr(<<St(<<"a", ",", "b">>), St(<<"c">>)>>), St(<<"%", "4", "1">>)>>) }
+(* bodies for S8: a property that is itself an object *)
+NestVals == { Obj(<<"n", "o">>, <<N(4), Obj(<<"a">>, <<N(4)>>)>>),
+              Obj(<<"o", "s">>, <<Obj(<<"a">>, <<St(<<"x">>)>>), St(<<"a">>)>>),          \* o.a is not an integer
+              Obj(<<"o">>, <<Obj(<<"b">>, <<N(4)>>)>>) }                                \* o.a (required) is missing
+FileVals == { Obj(<<"s">>, <<St(<<"a">>)>>), Obj(<<"ls", "s">>, <<Arr(<<St(<<"a">>)>>), St(<<"b">>)>>), Obj(<<"ls">>, <<Arr(<<St(<<"a">>), St(<<"b">>)>>)>>),
+              Obj(<<"ro", "s">>, <<St(<<"v">>), St(<<"a">>)>>) }
+(* bodies for S9: booleans, numbers with and without a fraction; texts that are not of the declared type; 4.5 for the integer *)
+PrimVals == { Obj(<<"b", "f">>, <<Bool(TRUE), N(18)>>), Obj(<<"b", "n">>, <<Bool(FALSE), N(4)>>), Obj(<<"f">>, <<N(16)>>), Obj(<<"f", "n">>, <<N(-6), N(-8)>>),
+              Obj(<<"b">>, <<St(<<"x">>)>>), Obj(<<"f">>, <<St(<<"x">>)>>), Obj(<<"n">>, <<N(18)>>), Obj(<<"b">>, <<N(4)>>) }
+(* text/csv bodies in canonical form (no quoting, every record ended by a line feed): the decoded string is the text *)
+CsvVals == { St(<<"a", ",", "b", "\n">>), St(<<"a", "\n", "b", "\n">>), St(<<"a", "\n">>) }
+(* texts that are not an encoding of any value in the syntax of their media type *)
+MalKinds == {<<"json", "truncated">>, <<"json", "trailing">>, <<"json", "two">>, <<"json", "bareword">>, <<"json", "trailcomma">>, <<"json", "empty_ws">>,
+             <<"form", "badpct">>, <<"form", "badpct_end">>,
+             <<"multipart", "noboundary">>, <<"multipart", "nofinal">>, <<"multipart", "nodisp">>, <<"multipart", "notmultipart">>,
+             <<"yaml", "unclosed">>, <<"yaml", "tabindent">>}
+
 VARIABLE case
 Init ==
+   \* ---- round 6b: selection with bare entries / a second decoder family; the selected entry is still observable through the verdict ----
+   \/ \E d \in DeclSets2, h \in Hdrs2, bk \in DeclFamily2, bare \in DeclFamily2 \cup {NoneRec} :
+        /\ bk \in d /\ (bare = NoneRec \/ bare \in d)
+        \* left open: an entry WITH a schema selected for a body no decoder is registered for (no Content-Type at all, image/png)
+        /\ (("absent" \in DOMAIN h \/ h = Png) => (IsNone(Select(d, h)) \/ Select(d, h) = bare))
+        /\ case = [part |-> "select", decl |-> DeclSeq(d), hdr |-> h, hdrText |-> (IF "absent" \in DOMAIN h THEN "" ELSE Render(h)), required |-> TRUE,
+                   bodyKey |-> bk, empty |-> FALSE, declText |-> [i \in 1..Cardinality(d) |-> Render(DeclSeq(d)[i])], bare |-> bare]
+   \* no body bytes (in every form a server or client hands one over) x required x any header, declared or not
+   \/ \E d \in {{Json}, {AnyWild}, {Json, Text}}, h \in {[absent |-> TRUE], Json, Text, Png}, req \in BOOLEAN, ef \in {"nil", "nobody", "reader", "unsized"} :
+        case = [part |-> "select", decl |-> DeclSeq(d), hdr |-> h, hdrText |-> (IF "absent" \in DOMAIN h THEN "" ELSE Render(h)), required |-> req,
+                bodyKey |-> DeclSeq(d)[1], empty |-> TRUE, declText |-> [i \in 1..Cardinality(d) |-> Render(DeclSeq(d)[i])], bare |-> NoneRec, emptyForm |-> ef]
+   \* a parameter on the declared key and / or on the Content-Type header of every decoder family that has one
+   \* (entry: the body check called on its own / as part of ValidateRequest)
+   \/ \E fam \in {"json", "form", "text", "yaml", "octet"}, dp \in {"", "charset=utf-8"}, hp \in {"", "charset=utf-8", "charset=ascii"}, good \in BOOLEAN, en \in {"body", "request"} :
+        case = [entry |-> en, part |-> "decode", family |-> fam, schema |-> (IF fam \in {"text", "octet"} THEN "T3" ELSE "S2"),
+                v |-> (IF fam \in {"text", "octet"} THEN (IF good THEN St(<<"a", "b">>) ELSE St(<<"a">>))
+                       ELSE (IF good THEN Obj(<<"n", "s">>, <<N(4), St(<<"a">>)>>) ELSE Obj(<<"n", "ro">>, <<N(4), St(<<"v">>)>>))),
+                excludeRO |-> FALSE, enc |-> "default", clen |-> "known", setDefaults |-> FALSE, declPar |-> dp, hdrPar |-> hp]
+   \* strings made of the structure characters of a urlencoded body, in both spellings of a space (+ / %20; every other byte escaped)
+   \/ \E fam \in {"json", "form", "multipart", "yaml"}, v \in StructVals, sp \in {"plus", "pct"} :
+        /\ (sp = "pct" => fam = "form")
+        /\ case = [part |-> "decode", family |-> fam, schema |-> "S2", v |-> v, excludeRO |-> FALSE, enc |-> "default", clen |-> "known", setDefaults |-> FALSE, spell |-> sp]
+   \* multipart parts that say what they are: application/json parts (typed values, a nested object), file parts (filename, application/octet-stream);
+   \* boundary spellings (generated / one that has to be quoted in the header / one character)
+   \* encCT: the media type also declares, per property, the Content-Type its part is sent with (Encoding Object contentType)
+   \/ \E sc \in {"S1", "S2", "S8"}, v \in ObjVals \cup NestVals \cup FileVals, pct \in {"json", "file"}, bd \in {"default", "quoted", "short"}, xro \in BOOLEAN, ect \in BOOLEAN :
+        /\ (sc = "S8" <=> v \in NestVals)
+        /\ (pct = "file" <=> v \in FileVals)
+        /\ (bd # "default" => ~xro)
+        /\ (ect => bd = "default")
+        /\ case = [part |-> "decode", family |-> "multipart", schema |-> sc, v |-> v, excludeRO |-> xro, enc |-> "default", clen |-> "known",
+                   setDefaults |-> FALSE, partCT |-> pct, boundary |-> bd, encCT |-> ect]
+   \* the object-valued property through the other decoders that can carry one
+   \/ \E fam \in {"json", "yaml"}, v \in NestVals :
+        case = [part |-> "decode", family |-> fam, schema |-> "S8", v |-> v, excludeRO |-> FALSE, enc |-> "default", clen |-> "known", setDefaults |-> FALSE]
+   \* the same value in another spelling of its syntax: JSON pretty-printed with white space around it / every character of every string and key as a
+   \* \u escape; YAML in flow style
+   \/ \E fs \in {<<"json", "pretty">>, <<"json", "escaped">>, <<"yaml", "flow">>}, sc \in {"S1", "S2"}, v \in ObjVals \cup StructVals :
+        case = [part |-> "decode", family |-> fs[1], schema |-> sc, v |-> v, excludeRO |-> FALSE, enc |-> "default", clen |-> "known", setDefaults |-> FALSE, textForm |-> fs[2]]
+   \* the other names the library registers the JSON / YAML decoders under (declared and sent under that name)
+   \/ \E fm \in {<<"json", "application/problem+json">>, <<"json", "application/hal+json">>, <<"json", "application/ld+json">>, <<"json", "application/vnd.api+json">>,
+                  <<"json", "application/json-patch+json">>, <<"yaml", "application/x-yaml">>},
+         v \in {Obj(<<"n", "s">>, <<N(4), St(<<"a">>)>>), Obj(<<"n", "ro">>, <<N(4), St(<<"v">>)>>), Obj(<<"n">>, <<St(<<"x">>)>>)}, xro \in BOOLEAN :
+        case = [part |-> "decode", family |-> fm[1], schema |-> "S2", v |-> v, excludeRO |-> xro, enc |-> "default", clen |-> "known", setDefaults |-> FALSE, mtName |-> fm[2]]
+   \* an object-valued property of a urlencoded body, style deepObject (o[a]=4); directly and below a typed allOf
+   \/ \E v \in NestVals, w \in {"plain", "allOfT"} :
+        case = [part |-> "decode", family |-> "form", schema |-> "S8", wrap |-> w, v |-> v, excludeRO |-> FALSE, enc |-> "deep", clen |-> "known", setDefaults |-> FALSE]
+   \* booleans and numbers under every decoder (multipart: bare parts and application/json parts)
+   \/ \E fam \in {"json", "yaml", "form", "multipart"}, v \in PrimVals, pct \in {"none", "json"} :
+        /\ (pct = "json" => fam = "multipart")
+        \* left open: the text 1 sent for a boolean (a bare text has no type of its own: whether it spells the number or "true" is the reader's choice)
+        /\ ((fam = "form" \/ (fam = "multipart" /\ pct = "none")) => ~(HasKey(v, "b") /\ Get(v, "b").t = "num"))
+        /\ case = [part |-> "decode", family |-> fam, schema |-> "S9", v |-> v, excludeRO |-> FALSE, enc |-> "default", clen |-> "known", setDefaults |-> FALSE, partCT |-> pct]
+   \* text/csv
+   \/ \E sc \in {"T3", "T4", "T7"}, v \in CsvVals :
+        case = [part |-> "decode", family |-> "csv", schema |-> sc, v |-> v, excludeRO |-> FALSE, enc |-> "default", clen |-> "known", setDefaults |-> FALSE]
+   \* texts that encode nothing: rejected whatever the schema (S2: the object schema; E: the empty schema)
+   \/ \E mk \in MalKinds, sc \in {"S2", "E"} :
+        /\ (mk[1] \in {"form", "multipart"} => sc = "S2")
+        /\ case = [part |-> "malformed", family |-> mk[1], kind |-> mk[2], schema |-> sc]
    \/ \E d \in DeclSets, h \in Hdrs, req \in BOOLEAN, bk \in JsonFamily :
         /\ bk \in d
         /\ ("absent" \in DOMAIN h => AnyWild \notin d)       \* absent header + */* : selected but undecodable, left open
@@ -73,29 +161,32 @@ Init ==
    \/ \E req \in BOOLEAN :
         case = [part |-> "select", decl |-> <<Json>>, hdr |-> Json, hdrText |-> Render(Json), required |-> req,
                 bodyKey |-> Json, empty |-> TRUE, declText |-> <<Render(Json)>>]
-   \/ \E fam \in {"json", "form", "multipart"}, sc \in {"S1", "S2", "S3"}, v \in ObjVals \cup UntypedVals, xro \in BOOLEAN, enc \in {"default", "lNonExplode"},
+   \/ \E fam \in {"json", "form", "multipart", "yaml"}, sc \in {"S1", "S2", "S3"}, v \in ObjVals \cup UntypedVals, xro \in BOOLEAN, enc \in {"default", "lNonExplode", "pipe", "space"},
          cl \in {"known", "unknown"}, dflt \in BOOLEAN :       \* unknown: a body whose length net/http does not know (ContentLength 0, e.g. a pipe)
-        /\ (enc = "lNonExplode" => fam = "form")
-        /\ (v \in UntypedVals => fam \in {"json", "form"})
+        /\ (enc # "default" => fam = "form")             \* per-property encoding of a urlencoded body: form / pipeDelimited / spaceDelimited, not exploded
+        /\ (enc \in {"pipe", "space"} => (cl = "known" /\ (HasKey(v, "l") \/ HasKey(v, "ls"))))
+        /\ (fam = "yaml" => cl = "known")
+        /\ (v \in UntypedVals => fam \in {"json", "form", "yaml"})
         /\ (dflt => (sc = "S3" /\ cl = "known"))          \* dflt: defaults are installed during validation (SkipSettingDefaults off)
         /\ (sc = "S3" => enc = "default")
         /\ case = [part |-> "decode", family |-> fam, schema |-> sc, v |-> v, excludeRO |-> xro, enc |-> enc, clen |-> cl, setDefaults |-> dflt]
-   \/ \E fam \in {"json", "form", "multipart"}, sc \in {"S4", "S4a"}, v \in AltVals :
+   \/ \E fam \in {"json", "form", "multipart", "yaml"}, sc \in {"S4", "S4a"}, v \in AltVals :
         /\ (fam = "multipart" => ~HasNum(v))           \* multipart text parts are not typed (F-C06-2)
         /\ case = [part |-> "decode", family |-> fam, schema |-> sc, v |-> v, excludeRO |-> FALSE, enc |-> "default", clen |-> "known", setDefaults |-> FALSE]
-   \/ \E fam \in {"json", "form", "multipart"}, sc \in {"S5", "S6"}, v \in EmptyVals :
+   \/ \E fam \in {"json", "form", "multipart", "yaml"}, sc \in {"S5", "S6"}, v \in EmptyVals :
         /\ (fam = "form" => ~\E i \in DOMAIN v.v : v.v[i] = St(<<>>))   \* "s=" in a urlencoded body: the open region "empty values" (as for parameters)
         /\ case = [part |-> "decode", family |-> fam, schema |-> sc, v |-> v, excludeRO |-> TRUE, enc |-> "default", clen |-> "known", setDefaults |-> FALSE]
    \* the JSON text "null" as the body: present, so never "missing"; accepted exactly when the schema is nullable
-   \/ \E sc \in {"SN", "S2"}, v \in {Null, Obj(<<"n">>, <<N(4)>>)}, req \in BOOLEAN :
-        case = [part |-> "decode", family |-> "json", schema |-> sc, v |-> v, excludeRO |-> TRUE, enc |-> "default", clen |-> "known",
+   \/ \E fam \in {"json", "yaml"}, sc \in {"SN", "S2"}, v \in {Null, Obj(<<"n">>, <<N(4)>>)}, req \in BOOLEAN :
+        case = [part |-> "decode", family |-> fam, schema |-> sc, v |-> v, excludeRO |-> TRUE, enc |-> "default", clen |-> "known",
                 setDefaults |-> FALSE, bodyRequired |-> req]
    \/ \E v \in TextVals :
         case = [part |-> "decode", family |-> "text", schema |-> "text", v |-> v, excludeRO |-> FALSE, enc |-> "default", clen |-> "known", setDefaults |-> FALSE]
    \* text/plain bodies against schemas with and without a "type" keyword
-   \/ \E sc \in TextSchemas2, v \in TextVals2 :
+   \/ \E fam \in {"text", "octet", "zip"}, sc \in TextSchemas2, v \in TextVals2 :      \* octet: application/octet-stream, the body bytes as a string;
+                                                                                      \* zip: the library's opt-in ZipFileBodyDecoder registered for application/zip, an archive of one file
         /\ (sc = "T6" => ~IsDigits(v))                  \* left open: whether the text 42 is an integer for a text/plain body
-        /\ case = [part |-> "decode", family |-> "text", schema |-> sc, v |-> v, excludeRO |-> FALSE, enc |-> "default", clen |-> "known", setDefaults |-> FALSE]
+        /\ case = [part |-> "decode", family |-> fam, schema |-> sc, v |-> v, excludeRO |-> FALSE, enc |-> "default", clen |-> "known", setDefaults |-> FALSE]
    \* multipart parts decoded as plain text (no part Content-Type, or text/plain spelled out) against typed and untyped properties
    \/ \E sc \in {"S1", "S2"}, v \in MultiUntypedVals \cup {Obj(<<"s">>, <<St(<<"a">>)>>), Obj(<<"ls", "s">>, <<Arr(<<St(<<"a">>)>>), St(<<"b">>)>>)},
          pct \in {"none", "text"}, xro \in BOOLEAN :
@@ -103,8 +194,8 @@ Init ==
         /\ case = [part |-> "decode", family |-> "multipart", schema |-> sc, v |-> v, excludeRO |-> xro, enc |-> "default", clen |-> "known",
                    setDefaults |-> FALSE, partCT |-> pct]
    \* the object schema inside a composition / below items / below a property, x the read-only exclusion option
-   \/ \E fam \in {"json", "form", "multipart"}, sc \in {"S1", "S2", "S7"}, w \in Wraps \cup {"plain"}, v \in WrapVals, xro \in BOOLEAN :
-        /\ (fam # "json" => w = "allOfT")               \* form / multipart decoders look for properties in the schema itself and in allOf members only (F-C06-6)
+   \/ \E fam \in {"json", "form", "multipart", "yaml"}, sc \in {"S1", "S2", "S7"}, w \in Wraps \cup {"plain"}, v \in WrapVals, xro \in BOOLEAN :
+        /\ (fam \in {"form", "multipart"} => w \in {"allOfT", "anyOfT", "oneOfT"})   \* the form decoders ask for "type: object" at the top (multipart below anyOf / oneOf: F-C06-6)
         /\ (fam = "multipart" => ~HasNum(v))            \* multipart text parts are not typed (F-C06-2)
         /\ (w = "plain" => sc = "S7")                   \* (S1 / S2 unwrapped are the first group)
         /\ (HasKey(v, "wo") => sc = "S7")
@@ -114,7 +205,9 @@ Init ==
 Next == UNCHANGED case
 Spec == Init /\ [][Next]_case
 (* the decode cases carry the abstract schema: the realiser builds the document from it *)
-Emit == CSVWrite("%1$s", <<ToJson(IF case.part = "decode" THEN case @@ [sch |-> SchemaOf(case)] ELSE case)>>, "cases.ndjson")
+Emit == CSVWrite("%1$s", <<ToJson(IF case.part = "decode" THEN case @@ [sch |-> SchemaOf(case)]
+                                  ELSE IF case.part = "malformed" THEN case @@ [sch |-> IF case.schema = "E" THEN [nullable |-> TRUE] ELSE S2]
+                                  ELSE case)>>, "cases.ndjson")
 
 (* D: selection is a function with the documented precedence *)
 SelectLaws ==
@@ -136,4 +229,23 @@ ExclusionLaws ==
       /\ (~HasKey(v, "ro") => (Valid(Wrap(sc, w), WrapVal(v, w), "asreq") = Valid(Wrap(sc, w), WrapVal(v, w), "asreq_noro")))
 ASSUME WrapLaws
 ASSUME ExclusionLaws
+
+(* D: the precedence over the two-family universe: the selected entry is always a declared one; each level is reached exactly  *)
+(* when every level before it fails; nothing is selected exactly when all four fail; no header selects */* or nothing.          *)
+SelectLaws2 ==
+   /\ \A d \in DeclSets2, h \in Hdrs2 \ {[absent |-> TRUE]} :
+         LET sel == Select(d, h) IN
+         /\ (~IsNone(sel) => sel \in d)
+         /\ (h \in d => sel = h)
+         /\ (h \notin d /\ Strip(h) \in d => sel = Strip(h))
+         /\ (h \notin d /\ Strip(h) \notin d /\ MT(h.ty, "*", "") \in d => sel = MT(h.ty, "*", ""))
+         /\ (IsNone(sel) <=> (h \notin d /\ Strip(h) \notin d /\ MT(h.ty, "*", "") \notin d /\ AnyWild \notin d))
+   /\ \A d \in DeclSets2 : Select(d, [absent |-> TRUE]) = (IF AnyWild \in d THEN AnyWild ELSE NoneRec)
+ASSUME SelectLaws2
+(* D: a parameter on the Content-Type header or on the declared key decides only WHETHER the entry is selected: it is selected *)
+(* unless the key carries a parameter the header does not spell the same way.                                                    *)
+CtLaws ==
+   \A b \in {Json, Form, Text, Yaml, Octet}, dp \in {"", "charset=utf-8"}, hp \in {"", "charset=utf-8", "charset=ascii"} :
+      IsNone(Select({[b EXCEPT !.par = dp]}, [b EXCEPT !.par = hp])) <=> (dp # "" /\ dp # hp)
+ASSUME CtLaws
 =============================================================================
